@@ -143,7 +143,10 @@ def judgeReflect (impl : List String) : Judged :=
       let w := match decodeAVPs ty (wireB.length + 1) wireB with
         | .ok was => showRV (RV.struct (scanFields find fs was z))
         | _ => "readerr"
-      let model := head ++ s!"m={showAVPs as} len=ok u={showRV u} wire={hexOrDash wireB} w={w}"
+      -- `again=`: the struct was used for a second message; the first one is a value of its own
+      let again := kv impl "again"
+      let model := head ++ s!"m={showAVPs as} len=ok u={showRV u} wire={hexOrDash wireB} w={w}" ++
+        (if again.isSome then " again=same" else "")
       let canon := DV.Spec.canonL as
       let wf := wfStruct find fs vs && distinct (levelCodes find fs)
       let want := showRV (RV.struct (normFields fs vs))
@@ -159,6 +162,10 @@ def judgeReflect (impl : List String) : Judged :=
             fails := fails ++ ["C18:avp-flags-or-vendor-not-from-dictionary"]
         | none => pure ()
         if (kv impl "len").getD "ok" ≠ "ok" then fails := fails ++ ["C02:header-length-after-marshal"]
+        match again with
+        | some "same" | none => pure ()
+        | some "struct-changed" => fails := fails ++ ["C18:adding-to-the-message-changed-the-struct"]
+        | some _ => fails := fails ++ ["C18:earlier-message-changed-by-a-later-marshal"]
         if wf then
           if iM.startsWith "err" then fails := fails ++ ["C18:well-formed-struct-rejected"]
           else
